@@ -67,7 +67,7 @@ lbytes.NORMALISE = True
 
 # ---- the lifted world ---------------------------------------------------------------------------------
 
-LA = lift.lift("twisted.web._abnf")
+LA = lift.lift("twisted.web._abnf", use_re=True)
 LH = lift.lift("twisted.web.http_headers", overrides={"_istoken": LA._istoken}, encode_calls=True)
 LB = lift.lift("twisted.protocols.basic", names=["LineReceiver", "_PauseableMixin"])
 
